@@ -11,7 +11,7 @@
    Boundaries.bnd_pipe, is well-formed.  bnd_pipe is compared boundary by boundary with the recording
    taps of the real code by the correspondence check (MCBnd). *)
 From Coq Require Import List ZArith.
-From RxVerif Require Import Mux.Val Mux.Sim Mux.SimExt Mux.Seg Mux.Ops Mux.Syntax Mux.ConfineProofs Mux.MasterProofs Mux.InnerProtocolProofs Mux.Boundaries Mux.BoundaryProofs.
+From RxVerif Require Import Mux.Val Mux.Sim Mux.SimExt Mux.Seg Mux.Ops Mux.Syntax Mux.ConfineProofs Mux.MasterProofs Mux.InnerProtocolProofs Mux.Boundaries Mux.BoundaryProofs Mux.MuxCorr.
 Import ListNotations.
 
 Theorem C03_output_protocol : forall (P : list op) (t : list iev), wf t ->
@@ -92,6 +92,13 @@ Theorem C03_last_boundary_is_output : forall (P : list op) (t : list iev), P <> 
   last (bnd_pipe P t) [] = flat_run (den_pipe P) t.
 Proof. exact bnd_pipe_last. Qed.
 Print Assumptions C03_last_boundary_is_output.
+
+(* the boolean the correspondence check evaluates on every tapped trace of the real code (MCWf) IS the
+   protocol predicate of the theorems above *)
+Theorem C03_monitor_is_the_predicate : forall t : list oev,
+  tap_wf t = true <-> allowed_seq [] (evs_of_oevs t).
+Proof. intro t. unfold tap_wf. apply allowed_seq_b_iff. Qed.
+Print Assumptions C03_monitor_is_the_predicate.
 
 Example C03_boundaries_example :
   bnd_pipe [ORoll 2 1 [OScan A2Count (VInt 0) TInt true None]]
